@@ -284,3 +284,50 @@ def check_M4(ctx, rep):
 def pat_bindings_(p):
     from tree import pat_bindings
     return pat_bindings(p)
+
+
+def check_M5(ctx, rep):
+    """scoping of `let` statements in block expressions: in `block_visit_free_vars` and its hand-written `_mut` twin the variables a
+    statement binds join the bound set only after the statement itself has been visited (`let w = w * 10;` reads the outer `w`).
+    Read off the statement order of the loop body: the call that visits the statement comes before the call that extends the set."""
+    cr = ctx.lib('ascent_macro')
+    n = 0
+    for name in ('block_visit_free_vars', 'block_visit_free_vars_mut'):
+        b = None
+        for path, bb in cr.bodies.items():
+            if bb['name'] == name and 'syn_utils' in path:
+                b = bb
+        if b is None:
+            raise Broken('M5: syn_utils::%s not found' % name)
+        rep.functions.add(b['path'])
+        found = False
+        for x, _ in walk(b['tree']):
+            if x.get('k') != 'block' or len(x.get('ss', [])) < 2:
+                continue
+            visit_i = ext_i = None
+            for i, st in enumerate(x['ss']):
+                for y, _ in walk(st):
+                    c = callee(y) if y.get('k') in ('call', 'mcall') else None
+                    if not c:
+                        continue
+                    nm = cname(c)
+                    if nm.endswith(('stmt_visit_free_vars', 'stmt_visit_free_vars_mut')) and visit_i is None:
+                        visit_i = i
+                    if y.get('k') == 'mcall' and y['m'] in ('extend', 'insert') and ext_i is None and st.get('k') in ('semi', 'expr'):
+                        # the statement itself is the extension (not an extend nested in the visiting closure)
+                        if strip(st['e']) is y:
+                            ext_i = i
+            if visit_i is None or ext_i is None:
+                continue
+            found = True
+            n += 1
+            ok = visit_i < ext_i
+            rep.inst('M5', '%s: the statement is visited %s its binders join the bound set' % (name, 'before' if ok else 'AFTER'))
+            if not ok:
+                rep.viol('M5', b['path'], 'let-binders-in-scope-of-own-initialiser',
+                         '`%s` adds the variables a `let` statement binds to the bound set before visiting the statement: the initialiser of '
+                         '`let w = w * 10;` is taken to refer to the new `w` - the hygiene renamer (or the free-variable analysis) skips '
+                         'the outer variable there' % name, loc=cr.loc(x['ss'][ext_i]))
+        if not found:
+            raise Broken('M5: loop body of %s not recognised (visit call + extension of the bound set)' % name)
+    return n
